@@ -41,7 +41,7 @@ LEAN_MODULES = ["MpfVerif.Props.C07"]
 PROPS_FILE = "MpfVerif/Props/C07.lean"
 GEN = []
 MANIFEST = {
-  "text": "Proof on a Lean model of Mode.start/_started/_mode_started_callback/stop/_stopped/_mode_stopped_callback, ModeController.set_mode_state and five registries (event handlers incl. the one-shot handler ModeController._player_turn_ended registers on mode_<n>_started for a game mode still starting at turn end; switch handlers; delays incl. pending delayed control-event calls of mode devices; what config players record under the mode's context - light stack entries, show instances, enabled coils; delays and periodic tasks owned by mode devices - timer ticks and pauses, logic-block timeouts, sequence-shot timeouts, shot delay switches, ball-save timers; every entry tagged with its owning mode and the mechanism that removes it) with every scheduler choice (which pending callback runs next, what user code registers when, when an entry of a config player is called - also from the snapshot of a queue event's handler list taken before the mode stopped -, when a conditional entry is re-evaluated, when a device schedules, cancels or fires a timer) an input: for ALL op sequences the lifecycle events posted for a mode form a prefix of (will_start starting started will_stop stopping stopped)*, active_modes is duplicate-free, contains exactly the modes whose active flag is set and is strictly sorted by (priority, name) descending, and whenever a mode's stop completes (its cleanup runs, in _mode_stopped_callback or at the beginning of a restart requested from a mode_<n>_stopped handler) no entry of the stopped run owned by it is left in any of the five registries (a restarted mode owns exactly its fresh footprint and the late callback of the previous stop touches nothing) while entries of other modes are untouched, hence any number of complete cycles restores the registries; a config-player entry called for a mode that is not active changes nothing and nothing is recorded under the context of a mode that is neither starting nor active (config_player_effects_die_with_mode); a device timer exists only while its mode's devices are loaded and none is left after the cleanup (device_timers_die_with_mode); accepted starts/stops become pending steps that are enabled; a start request that the guards turn down (outside a game, already active - incl. stopping -, already starting) changes nothing, whatever priority it carries, and a mode's priority changes only at an accepted start and at _stopped (refused_start_changes_nothing, refused_start_while_stopping, priority_changes_only_at_accepted_start_or_stopped), so active_modes - re-sorted only on active/inactive transitions - stays ordered; an accepted stop cancels the mode's delays and switch handlers at once, none of them can fire while the stopping queue is held (accepted_stop_cancels_delays); a device control event handler (direct or delayed form) called for a mode that is neither starting nor active - from a queue event's snapshot - does nothing (stale_control_event_has_no_effect). The model is tied to mpf/core/mode.py, mode_controller.py, config_player.py (config_play_callback, subscriptions, mode_stop/clear_context) and the device-owned DelayManagers on every check: generated mode sets run on a real machine, the observed call schedule is replayed on the Lean driver (not-enabled = disagreement; played/skipped of every config_play_callback compared), posted events, flags, active_modes and canonical dumps of all five registries are compared at every quiescent point; an independent oracle checks the three clauses of the property on the real machine incl. light stacks and every config player's instances[context]. Oracle only (the Lean model has no callbacks; the start / stop call itself goes through the model like any other): start and stop requests made through the API with a callback (Mode.start(callback=cb), Mode.stop(callback=cb), a fresh recording cb per request, mixed with event-driven and plain requests, from the top level and from lifecycle handlers, accepted and turned down) - the callback of an accepted request is called exactly once, for that request (start callback of the k-th accepted start: while exactly k mode_<n>_started events have been posted; stop callback: before the next start begins), never again on a later start or stop, and the callback of a request that was turned down is never called; after the case every mode that got a start with a callback is asked to start once more without one (a game mode follows only while the game is still running), so a callback still held by a stopped mode would be seen firing.",
+  "text": "Proof on a Lean model of Mode.start/_started/_mode_started_callback/stop/_stopped/_mode_stopped_callback, ModeController.set_mode_state and five registries (event handlers incl. the one-shot handler ModeController._player_turn_ended registers on mode_<n>_started for a game mode still starting at turn end; switch handlers; delays incl. pending delayed control-event calls of mode devices; what config players record under the mode's context - light stack entries, show instances, enabled coils; delays and periodic tasks owned by mode devices - timer ticks and pauses, logic-block timeouts, sequence-shot timeouts, shot delay switches, ball-save timers; every entry tagged with its owning mode and the mechanism that removes it) with every scheduler choice (which pending callback runs next, what user code registers when, when an entry of a config player is called - also from the snapshot of a queue event's handler list taken before the mode stopped -, when a conditional entry is re-evaluated, when a device schedules, cancels or fires a timer) an input: for ALL op sequences the lifecycle events posted for a mode form a prefix of (will_start starting started will_stop stopping stopped)*, active_modes is duplicate-free, contains exactly the modes whose active flag is set and is strictly sorted by (priority, name) descending, and whenever a mode's stop completes (its cleanup runs, in _mode_stopped_callback or at the beginning of a restart requested from a mode_<n>_stopped handler) no entry of the stopped run owned by it is left in any of the five registries (a restarted mode owns exactly its fresh footprint and the late callback of the previous stop touches nothing) while entries of other modes are untouched, hence any number of complete cycles restores the registries; a config-player entry called for a mode that is not active changes nothing and nothing is recorded under the context of a mode that is neither starting nor active (config_player_effects_die_with_mode); a device timer exists only while its mode's devices are loaded and none is left after the cleanup (device_timers_die_with_mode); accepted starts/stops become pending steps that are enabled; a start request that the guards turn down (outside a game, already active - incl. stopping -, already starting) changes nothing, whatever priority it carries, and a mode's priority changes only at an accepted start and at _stopped (refused_start_changes_nothing, refused_start_while_stopping, priority_changes_only_at_accepted_start_or_stopped), so active_modes - re-sorted only on active/inactive transitions - stays ordered; an accepted stop cancels the mode's delays and switch handlers at once, none of them can fire while the stopping queue is held (accepted_stop_cancels_delays); a device control event handler (direct or delayed form) called for a mode that is neither starting nor active - from a queue event's snapshot - does nothing (stale_control_event_has_no_effect). The model is tied to mpf/core/mode.py, mode_controller.py, config_player.py (config_play_callback, subscriptions, mode_stop/clear_context) and the device-owned DelayManagers on every check: generated mode sets run on a real machine, the observed call schedule is replayed on the Lean driver (not-enabled = disagreement; played/skipped of every config_play_callback compared), posted events, flags, active_modes and canonical dumps of all five registries are compared at every quiescent point; an independent oracle checks the three clauses of the property on the real machine incl. light stacks and every config player's instances[context]. Oracle only (the Lean model has no callbacks; the start / stop call itself goes through the model like any other): start and stop requests made through the API with a callback (Mode.start(callback=cb), Mode.stop(callback=cb), a fresh recording cb per request, mixed with event-driven and plain requests, from the top level and from lifecycle handlers, accepted and turned down) - the callback of an accepted request is called exactly once, for that request (start callback of the k-th accepted start: not before k mode_<n>_started events have been posted; stop callback: before the next start begins), never a second time on a later start or stop, and the callback of a request that was turned down is never called; after the case every mode that got a start with a callback is asked to start once more without one (a game mode follows only while the game is still running), so a callback still held by a stopped mode would be seen firing.",
   "note": "Trusted: Lean kernel + {propext, Classical.choice, Quot.sound}; the hand-written model Model/Mode.lean (validated only by the differential runs); the event bus (C01/C02) is not re-modelled: which callback runs when is an input. Mode footprints (which handlers a configuration registers in start / on started and which mechanism removes them) are calibrated on the real machine, not derived. Not claimed: a stop requested from a mode_<n>_started handler runs mode_stop before mode_start when mode_<n>_stopping has no handlers (custom mode code only). Decision on stale calls from a queue event's snapshot: the property speaks about the registries, so a handler of mode code (add_mode_event_handler) that is called after the mode removed it is counted (observation_stale_call_from_queue_snapshot), not failed on; what such a call LEAVES in a registry of a stopped mode (a delay, a device timer, an enabled device's handlers) or a crash is a failure - device control events registered by the mode did exactly that and were repaired (guard in Mode._direct_control_event_handler / _control_event_handler). NOT generated because still defective on the real code (reported): handlers a device registers by itself and that start timers - Timer control_events, SequenceShot event_sequence / delay_event_list - called from such a snapshot start a timer for a stopped mode. A delay or handler firing between the accepted stop and _stopped is outside the property's text ('once a mode has stopped'): counted (observation_fired_while_stopping) and, for delays that were pending at the stop, reported by the correspondence (the model cancels them in stop); values a player merely remembers per context (event_player keeps the last value of a conditional entry and never clears it) are counted, not failed on.",
   "technique": "Lean 4 theorems (invariants by induction over op sequences) on a hand model + schedule-replaying differential correspondence with real modes + independent oracle",
   "translated": False,
@@ -1402,9 +1402,12 @@ def callback_oracle(real):
     """start / stop requests made through the API with a callback (every request got its own fresh recording callback; at the
     end of the case every mode is stopped and settled, and every mode that got such a start request has been asked to start once
     more without a callback - which a game mode does only while the game is still running).  The callback of an accepted request is called exactly once, for that request: with
-    k = the number of the accepted start (count of mode_<n>_will_start posted), a start callback is called when exactly k
-    mode_<n>_started events have been posted (start k has become active, start k+1 has not), a stop callback while exactly k
-    will_start events have been posted (before the next start begins); never again on a later start or stop.  The callback
+    k = the number of the accepted start (count of mode_<n>_will_start posted), a start callback is called once at least k
+    mode_<n>_started events have been posted (start k has become active; NOT 'before start k+1 is active': the callback of
+    the started event runs after everything its handlers caused, so with a stop from a started handler and a restart from a
+    stopped handler the callbacks of the nested starts run last-first, each once - found by the thorough tier, the stricter
+    clock demanded more than 'once, for its request'), a stop callback while exactly k will_start events have been posted
+    (before the next start begins); never a second time on a later start or stop.  The callback
     of a request that was turned down (start: no will_start posted; stop: returned False) belongs to no transition and is
     never called."""
     def detail(c):
@@ -1422,10 +1425,10 @@ def callback_oracle(real):
             continue
         if not c["calls"]:
             return k + "-callback-not-called", detail(c)
-        if any(x[0] != c["cycle"] for x in c["calls"]):
-            return k + "-callback-called-in-later-cycle", detail(c)
         if len(c["calls"]) != 1:
             return k + "-callback-called-more-than-once", detail(c)
+        if k == "stop" and c["calls"][0][0] != c["cycle"]:
+            return k + "-callback-called-in-later-cycle", detail(c)
     return None
 
 
@@ -2161,6 +2164,12 @@ def corpus():
               "hooks": [{"mode": "m2", "phase": "stopped", "prio": 1, "acts": [["start", "m2", None, "cb"]]},
                         {"mode": "m2", "phase": "starting", "prio": 1, "acts": [["wait", 9]]}],
               "ops": [["start", "m2", None, "cb"], ["ballend"], ["adv", 16]]})
+    # the same without a game: stop from a started handler, restart with a callback from a stopped handler, twice nested; the
+    # callbacks of the nested starts run last-first, each exactly once (unfixed: the last one three times, the first never)
+    c.append({"kind": "modes", "game": False, "modes": {"m1": [200, False, True, "plain"]},
+              "hooks": [{"mode": "m1", "phase": "stopped", "prio": 1, "acts": [["start", "m1", None, "cb"]]},
+                        {"mode": "m1", "phase": "started", "prio": 1, "acts": [["stop", "m1"]]}],
+              "ops": [["ev", "start_m1"]]})
     return c
 
 
